@@ -9,6 +9,7 @@
 (*           withCancelOnBlock in order (signing deadline; for the failed   *)
 (*           heartbeat also the claim deadline)                             *)
 (*   Sign    one real signingExecutor.sign / signBatch (see TSign)           *)
+(*   Broadcast one real broadcastTransaction (see TBroadcast)                 *)
 (*   Loop    one real signingRetryLoop.start from block `start` with the    *)
 (*           chain at block `current`: for every attempt that ran its       *)
 (*           number k, the timeout block given to the done check, the       *)
@@ -21,7 +22,7 @@ tvars == <<vars, l>>
 
 TInit ==
     /\ act \in Actions /\ start = 0 /\ phase = "proposed" /\ now = 0 /\ attempt = 0
-    /\ msg = 0 /\ mstart = 0 /\ lastAnn = 0
+    /\ msg = 0 /\ mstart = 0 /\ lastAnn = 0 /\ bstart = 0 /\ bel = 0
     /\ act = CHOOSE a \in Actions : TRUE
     /\ l = 1 /\ HwmInit
 
@@ -45,6 +46,7 @@ TAction ==
           /\ act' = a /\ start' = s /\ phase' = "signing" /\ attempt' = 1
           /\ now' = e.signStart
           /\ msg' = 1 /\ mstart' = e.signStart /\ lastAnn' = e.signStart
+          /\ UNCHANGED <<bstart, bel>>
 
 LoopAttemptStart(s, k) == s + (k - 1) * AttemptMaxBlocks
 
@@ -97,7 +99,29 @@ TSign ==
           /\ e.failed
     /\ UNCHANGED vars
 
-TNext == TReset \/ TAction \/ TLoop \/ TSign
+(* one real walletTransactionExecutor.broadcastTransaction call with the     *)
+(* action's broadcast timeout / check delay scaled down (milliseconds): the   *)
+(* Bitcoin chain stub reports the transaction known from check number        *)
+(* knownAfter on (0 = never).  iterations = broadcasts made, elapsed = wall    *)
+(* clock, returned = the call came back within the generous observation       *)
+(* bound.  Wall-clock facts may only err towards "held".                      *)
+TBroadcast ==
+    /\ IsEvent("Broadcast")
+    /\ LET e == Trace[l]
+           maxIter == (e.timeout \div e.delay) + 1
+       IN \* the loop ENDS: the step has an upper bound
+          /\ e.returned
+          /\ e.iterations >= 1 /\ e.iterations <= maxIter
+          /\ IF e.knownAfter = 0
+                THEN \* never known: "broadcast timeout exceeded", not before the timeout
+                     e.failed /\ e.elapsed >= e.timeout
+                ELSE \* known at check k: success after exactly k broadcasts -- unless the
+                     \* (real-time) timeout got there first
+                     \/ (~e.failed /\ e.iterations = e.knownAfter)
+                     \/ (e.failed /\ e.elapsed >= e.timeout)
+    /\ UNCHANGED vars
+
+TNext == TReset \/ TAction \/ TLoop \/ TSign \/ TBroadcast
 TSpec == TInit /\ [][TNext]_tvars
 
 Hwm == HwmConstraint(l)
